@@ -3,6 +3,7 @@ CONSTANTS
  ByteAlpha = {0, 37, 43, 65, 126, 251, 255}
  MaxBytes = 4
  RandMax = 300
+ Stride = 8
  ShaMax = 260
  B64Alpha = {65, 47, 61, 32, 10, 33}
  MaxB64 = 6
